@@ -44,7 +44,7 @@ func (c15) Info(tier string) fw.Info {
 	return fw.Info{
 		Level: "exploration",
 		Rule: "module graphs (entry `main` + up to 4 modules; every module declares a singleton, an edge function calling the edge functions it imports, and items named f, g, v, T reused across modules with tag-returning bodies `\"a.f(\" + v + \",\" + g() + \")\"`; " +
-			"functions append a mark to their module's private globals; modules may also declare singletons `$K`, `$L` under names shared with other modules: every function of such a module appends its tag to the singleton's log and reads it back, through a singleton extraction parameter or through the expression `$K`; a call may end with the value of the last expression, with `return`, or with a `throw` of the result - directly or from a private helper - that a `try` around the call or only the entry's main catches, marking the result with `!`; edge functions may be handed a private function of another module as a value and call it, or call the function value that a pub maker function of an imported module returns; such a value is the named function or a function literal calling it) are enumerated exhaustively within this bound: " + Bound(tier) + "; plus seeded random graphs with 3-5 modules beyond the bound. " +
+			"functions append a mark to their module's private globals; modules may also declare singletons `$K`, `$L` under names shared with other modules: every function of such a module appends its tag to the singleton's log and reads it back, through a singleton extraction parameter or through the expression `$K`; a call may end with the value of the last expression, with `return`, or with a `throw` of the result - directly or from a private helper - that a `try` around the call or only the entry's main catches, marking the result with `!`; edge functions may be handed a private function of another module as a value and call it, or call the function value that a pub maker function of an imported module returns; such a value is the named function or a function literal calling it; functions and the entry's main may hold, while they call other functions, a local, a parameter or a block-scoped local named like each global their module sees: such a variable is seen by that activation only, every function running meanwhile - also one of the same module called back from another module - uses the module's global) are enumerated exhaustively within this bound: " + Bound(tier) + "; plus seeded random graphs with 3-5 modules beyond the bound. " +
 			"Oracle: a model linker (name -> defining module by the import statements and pub only) predicts per import statement legal / private / missing item / missing module / cyclic and, for accepted graphs, the exact text printed. " +
 			"The analyzer must report an error on every illegal import statement (mentioning the item or module) and none on legal ones; accepted graphs run " + fmt.Sprint(reps(tier)) + " times on the VM (fresh Analyze+Compile each, module map re-inserted in rotating permutations) and once on the interpreter; " +
 			"every run must print the predicted text (a function works on the globals and singletons of its defining module, and so does its caller after the call has ended, whichever way it ended) and load every singleton of every reachable module exactly once before the first output. " +
@@ -314,7 +314,7 @@ func judgeDiagnostics(g *Graph, lk *Link, rd Rendered, ao drive.AnalyzeOut, v *v
 	}
 }
 
-var tokRe = regexp.MustCompile(`[A-Za-z0-9_]+[.@][A-Za-z0-9_]+'*|[A-Za-z0-9_]+=|[(),\n]|.`)
+var tokRe = regexp.MustCompile(`[A-Za-z0-9_]+\.[A-Za-z0-9_]+#[A-Za-z0-9_]+'*|[A-Za-z0-9_]+[.@][A-Za-z0-9_]+'*|[A-Za-z0-9_]+=|[(),\n]|.`)
 
 // classify names the first difference between the expected and the observed output.
 func classify(want, got string) string {
@@ -337,6 +337,10 @@ func classify(want, got string) string {
 		}
 		if depth > 0 || a[i] == "[" || a[i] == "]" || a[lineStart] == "$" {
 			return "wrong-singleton-state"
+		}
+		// `m.f#v` is the text held by the variable of function m.f that shadows global v (Graph.Shadow)
+		if strings.Contains(a[i], "#") || strings.Contains(b[i], "#") {
+			return "frame-local-for-global"
 		}
 		am, an, ap, aok := splitTag(a[i])
 		bm, bn, bp, bok := splitTag(b[i])
@@ -502,6 +506,14 @@ func modeHint(g *Graph) string {
 	if g.Callback != "" && g.CbForm == "lit" {
 		parts = append(parts, "the function values are function literals `fn() -> str { k() }` (closures): the body of a literal belongs to the module that contains it, whichever module calls it")
 	}
+	switch g.Shadow {
+	case "let":
+		parts = append(parts, "every function and the entry's main declare, before they call anything, a local `let v = \"<module>.<function>#v\"` for every global v their module sees")
+	case "param":
+		parts = append(parts, "every function has a parameter for every global v its module sees, named v, for which the caller passes the text `<module>.<function>#v` (main and the functions handed out as values declare a local instead)")
+	case "block":
+		parts = append(parts, "every function and the entry's main make their calls inside a nested block that declares a local `let v = \"<module>.<function>#v\"` for every global v their module sees, and read the globals once more after the block")
+	}
 	if len(parts) == 0 {
 		return ""
 	}
@@ -605,6 +617,12 @@ func runGraph(c fw.Case, g *Graph, poison bool) (res fw.Result) {
 			v.res.Cover = append(v.res.Cover, "cbform:"+g.CbForm, "callback:"+g.Callback+"/"+g.CbForm)
 		} else {
 			v.res.Cover = append(v.res.Cover, "cbform:named")
+		}
+	}
+	if g.Shadow != "" {
+		v.res.Cover = append(v.res.Cover, "shadow:"+g.Shadow)
+		if g.Callback != "" {
+			v.res.Cover = append(v.res.Cover, "shadow:"+g.Shadow+"/callback:"+g.Callback)
 		}
 	}
 	detail := map[string]any{"graph": Describe(g), "source": rd.Src}
